@@ -18,18 +18,24 @@ Programs: every call kind (function, method, pure, async_proxy, non-generator, @
 every nesting of tuples / lists / dicts of ANY width and depth, raises (of `Exception`s and of BaseException-only errors)
 and try/except at every yield, `return` and `asynq.result()` of ANY kind of object (`valueKind`), plain synchronous calls,
 yielded instances of SUBCLASSES of tuple / list / dict (`Ys.sub`), async_proxy functions returning None or a container
-instead of one future (`Ys.pval`), futures that are not ConstFutures - ErrorFuture, lazy Future - (`Ys.ofut`).
+instead of one future (`Ys.pval`), futures that are not ConstFutures - ErrorFuture, lazy Future - (`Ys.ofut`), children whose
+explicit asyncio_fn is a generator-based coroutine (`Ys.gco`), a root that is a `pure=True` method (`observeR true`).
 
 Hypotheses, each with a machine-checked witness that it cannot be dropped FOR THE CODE AS IT IS (section B):
 * `p.safe`   - every handler of the program is `except Exception`, or the program raises no BaseException-only error
                (`C15_base_handler_counterexample`; a static over-approximation: sufficient, not a characterisation);
 * `p.plainY` - no yielded container is an instance of a subclass, no async_proxy function returns a non-future, every future
-               made in a yield is a ConstFuture, an ErrorFuture or a lazy Future (`C15_container_subclass_counterexample`,
-               `C15_proxy_value_counterexample`);
+               made in a yield is a ConstFuture, an ErrorFuture or a lazy Future, no explicit asyncio_fn of a yielded child is
+               a generator-based coroutine (`C15_container_subclass_counterexample`, `C15_proxy_value_counterexample`,
+               `C15_generator_coroutine_asyncio_fn_counterexample`);
+* `pm = false` (statements about a whole case, `observeR`) - the root function is not a `pure=True` METHOD: its binder has no
+               `.asyncio` (`C15_pure_method_root_counterexample`);
 * where a statement speaks about outcomes: `p.noSync` or "the asyncio run logged no synchronous call" - a plain synchronous
   call is refused under asyncio by design (`C15_noSync_necessary`); `s'.mode = false` (`C15_flag_off_necessary`);
-* `p.validCalls` (statements about refused synchronous calls) - NOT used by the proofs: it delimits the `Call` terms for which
-  the model is tied to the code (the harness sends no others).  The model refuses the plain synchronous call of every term;
+* `p.validCalls` is NOT a hypothesis of any theorem (third audit, C: the four statements about refused synchronous calls
+  carried it unused; it has been dropped, they hold of the MODEL for every term).  It delimits the `Call` terms for which
+  the model is tied to the code (the harness sends no others): read the four statements as statements about the code for
+  programs with `p.validCalls` only.  The model refuses the plain synchronous call of every term;
   the code does not for `.sync {kind := .pure}` (`pure(args)` returns an un-awaited coroutine, nothing is refused) and
   `.sync {kind := .proxy, sfn := true}` (AsyncAndSyncPairProxyDecorator.__call__ runs sync_fn whatever the flag): neither is
   "a plain synchronous call of an @asynq() function"; shown on the real code (DESIGN.md 5 C15), not in the model.
@@ -96,15 +102,16 @@ theorem C15_run_ends_with_outcome (c : Call) (p : Prog) : ∀ ob ∈ observe c p
 /-- **inside, the flag is on; everything the engine awaits together completes before the yield returns or raises; every
     synchronous call attempted is REFUSED with the RuntimeError and its callee never runs** (ALL programs): every event logged
     by an asyncio run satisfies `evOkA` (a callee run by a synchronous call would log `start _ false` or `sfn`, which `evOkA`
-    rejects; a call that came back with anything but `.err .syncRefused` too) -/
-theorem C15_asyncio_run_good (c : Call) (p : Prog) (_hv : p.validCalls = true) :
+    rejects; a call that came back with anything but `.err .syncRefused` too).  No hypothesis on the call sites is needed: the
+    model refuses every `Call` term (it is tied to the code for `p.validCalls` only, see the header) -/
+theorem C15_asyncio_run_good (c : Call) (p : Prog) :
     (topA c p {}).2.log.all evOkA = true := (topA_good c p).2
 
 /-- **no `sync_fn` ever runs inside an asyncio run** (ALL programs; every callee declared any way: function / method,
     with or without `sync_fn=`, with or without `asyncio_fn=`): the guard of `AsyncDecorator.__call__` AND that of
     `AsyncAndSyncPairDecorator.__call__` (reached directly or through `AsyncAndSyncPairDecoratorBinder.__call__`) refuse the
     call before the synchronous implementation is entered - the log of `await fn.asyncio(args)` contains no `sfn` event -/
-theorem C15_sync_fn_never_runs_under_asyncio (c : Call) (p : Prog) (_hv : p.validCalls = true) :
+theorem C15_sync_fn_never_runs_under_asyncio (c : Call) (p : Prog) :
     (topA c p {}).2.log.all (fun e => !isSfn e) = true := by
   have h := (topA_good c p).2
   rw [List.all_eq_true] at h ⊢
@@ -115,14 +122,14 @@ theorem C15_sync_fn_never_runs_under_asyncio (c : Call) (p : Prog) (_hv : p.vali
 /-- **every plain synchronous call attempted inside an asyncio run comes back with the RuntimeError "asyncio mode does not
     support synchronous calls"** - whatever the declaration of the callee (function / method / non-generator / @deduplicate(),
     with or without `sync_fn=` / `asyncio_fn=`), at any depth of the task tree, in a handler or not (ALL programs) -/
-theorem C15_sync_refused_with_RuntimeError (c : Call) (p : Prog) (_hv : p.validCalls = true) :
+theorem C15_sync_refused_with_RuntimeError (c : Call) (p : Prog) :
     (topA c p {}).2.log.all syncRefusedOk = true := topA_strict c p
 
 /-- **nothing of the callee of a refused call runs** (ALL programs): every event an asyncio run logs - start, resumption, end,
     asyncio_fn, synchronous call - belongs to the root or to a task of `p.live`: the tasks of the yielded structures reached
     through continuations and handlers.  The callee of a plain synchronous call and the tasks inside its body are not in
     `p.live` (`C15_live_excludes_callee`, for programs whose labels are distinct - as the harness' are) -/
-theorem C15_refused_callee_never_runs (c : Call) (p : Prog) (_hv : p.validCalls = true) :
+theorem C15_refused_callee_never_runs (c : Call) (p : Prog) :
     ∀ e ∈ (topA c p {}).2.log, e.label ∈ c.label :: p.live := by
   intro e he
   have h := List.all_eq_true.mp (topA_live c p) e he
@@ -161,6 +168,14 @@ theorem C15_spec_holds_partial (c : Call) (p : Prog) (hy : p.plainY = true) (hx 
     about the code is the correspondence; what the model's run is like is stated by the theorems above) -/
 theorem C15_specP_holds_partial (c : Call) (p : Prog) (hy : p.plainY = true) (hx : p.safe = true) :
     specP c p (observe c p) = true := specP_holds c p hy hx
+
+/-- **C15 for a whole case** (what Drv/Asyncio.lean evaluates: the root may be declared as a `pure=True` method, `pm`): under
+    the explicit hypothesis `pm = false` - the root function has an `.asyncio` attribute - the observer accepts the model's
+    observations (`observeR false` is `observe`; the hypothesis cannot be dropped: `C15_pure_method_root_counterexample`) -/
+theorem C15_case_spec_holds_partial (pm : Bool) (c : Call) (p : Prog) (hpm : pm = false) (hy : p.plainY = true)
+    (hx : p.safe = true) : specPR pm c p (observeR pm c p) = true := by
+  subst hpm
+  exact specP_holds c p hy hx
 
 /-! ## Section B: where the code as it is violates the property (genuine divergences), and why each hypothesis is needed -/
 
@@ -227,6 +242,40 @@ theorem C15_proxy_value_counterexample :
     (topCall c p {}).1 = .ok (.node 1 [.none]) ∧ (topA c p {}).1 = .err .other ∧ spec (observe c p) = false ∧
     (topCall c q {}).1 = .ok (.node 1 [.lst [.node 5 []]]) ∧ (topA c q {}).1 = .err .other ∧
     spec (observe c q) = false := by
+  decide
+
+/-- **`p.plainY` cannot be dropped, 3** (genuine divergence of the code as it is, finding
+    `generator-based-asyncio_fn-rejected-at-yield`; third audit A3): `r = yield f.asynq(1)` where `f` is declared
+    `@asynq(asyncio_fn=g)` and `g` is a generator-based coroutine (`@types.coroutine def g(x): r = yield from
+    base.asyncio(x).__await__(); return r`): `fn(args)` runs the child and returns; `await fn.asyncio(args)` raises TypeError
+    "Unknown structured awaitable type: <class 'generator'>" at the yield (`isinstance(x, collections.abc.Awaitable)` in
+    asynq_to_async.py `resolve_awaitables` is False for a generator-based coroutine, which `await` accepts and
+    `inspect.isawaitable` recognises) and the child never starts; inside a list the same, after the siblings have finished;
+    the observer rejects both ("with or without an explicit asyncio_fn") -/
+theorem C15_generator_coroutine_asyncio_fn_counterexample :
+    let c : Call := { kind := .gen, afn := false, label := 0 }
+    let f : Ys := .gco (.task { kind := .gen, afn := true, label := 1 } (.ret 5))
+    let p : Prog := .yld false f (.ret 1) .reraise
+    let q : Prog := .yld false (.lst (.cons (.task { kind := .gen, afn := false, label := 2 } (.ret 4)) (.cons f .nil))) (.ret 1) (.ret 2)
+    p.safe = true ∧ p.noSync = true ∧ p.validCalls = true ∧ p.plainY = false ∧
+    (topCall c p {}).1 = .ok (.node 1 [.node 5 []]) ∧ (topA c p {}).1 = .err .typeerr ∧
+    (topA c p {}).2.log.all (fun e => e.label != 1) = true ∧ spec (observe c p) = false ∧ specClause (observe c p) = "equiv" ∧
+    (topCall c q {}).1 = .ok (.node 1 [.lst [.node 4 [], .node 5 []]]) ∧ (topA c q {}).1 = .ok (.node 2 []) ∧
+    (topA c q {}).2.log.any (fun e => e == .run 0 1 true true (.err .typeerr)) = true ∧ spec (observe c q) = false := by
+  decide
+
+/-- **`pm = false` cannot be dropped** (genuine gap of the code as it is, finding `pure-method-has-no-asyncio`; third audit
+    B8): for `class C: @asynq(pure=True) def m(self, x): ...` the expression `C().m.asyncio(1)` raises AttributeError
+    ("'PureAsyncDecoratorBinder' object has no attribute 'asyncio'") while `C().m(1).value()` returns and the same function
+    outside a class (`observe`, `pm = false`) has `.asyncio`; nothing runs, the flag stays off; the observer rejects it -/
+theorem C15_pure_method_root_counterexample :
+    let c : Call := { kind := .pure, afn := false, label := 0 }
+    let p : Prog := .yld false (.task { kind := .gen, afn := false, label := 1 } (.ret 5)) (.ret 1) .reraise
+    p.plainY = true ∧ p.safe = true ∧ p.noSync = true ∧ p.validCalls = true ∧
+    specP c p (observe c p) = true ∧
+    (observeR true c p).all (fun ob => !ob.conv.isAio || (ob.out == .err .other && ob.log == [] && !ob.after)) = true ∧
+    (observeR true c p).all (fun ob => ob.conv.isAio || ob.out == .ok (.node 1 [.node 5 []])) = true ∧
+    specClausePR true c p (observeR true c p) = "equiv" ∧ specPR true c p (observeR true c p) = false := by
   decide
 
 /-- (after the repair of `non-const-future-yield-rejected-by-asyncio`) an ErrorFuture / a lazy Future made in a yield is
